@@ -68,8 +68,9 @@ impl OperationControl for BackReference {
             }
             Box::new(std::iter::once(position + l))
         } else {
-            // We don't know the backref yet
-            Box::new(std::iter::empty())
+            // The group has not matched anything: the back-reference is
+            // interpreted as matching a zero-length string
+            Box::new(std::iter::once(position))
         }
     }
 }
